@@ -387,6 +387,13 @@ class sptensor:
             return np.empty((0, 1), dtype=other.data.dtype)
         return other.data[tuple(self.subs.transpose())].reshape((-1, 1))
 
+    def _drop_explicit_zeros(self) -> sptensor:
+        """Same tensor without explicitly stored zeros (self when there are none)."""
+        if self.vals.size == 0 or self.vals.all():
+            return self
+        keep = self.vals[:, 0] != 0
+        return ttb.sptensor(self.subs[keep], self.vals[keep], self.shape, copy=False)
+
     def copy(self) -> sptensor:
         """
         Return a deep copy of the :class:`pyttb.sptensor`.
@@ -1048,6 +1055,10 @@ class sptensor:
         [0, 0] = 1.0
         [1, 1] = 1.0
         """
+        # Explicitly stored zeros denote zeros: work on the entries that are nonzero
+        self = self._drop_explicit_zeros()
+        if isinstance(other, sptensor):
+            other = other._drop_explicit_zeros()
         # Case 1: One argument is a scalar
         if isinstance(other, (int, float)):
             if other == 0:
@@ -1110,6 +1121,8 @@ class sptensor:
         [0, 1] = 1.0
         [1, 0] = 1.0
         """
+        # Explicitly stored zeros denote zeros: work on the entries that are nonzero
+        self = self._drop_explicit_zeros()
         allsubs = self.allsubs()
         subsIdx = tt_setdiff_rows(allsubs, self.subs)
         subs = allsubs[subsIdx]
@@ -1167,6 +1180,10 @@ class sptensor:
         [[1. 1.]
          [1. 1.]]
         """
+        # Explicitly stored zeros denote zeros: work on the entries that are nonzero
+        self = self._drop_explicit_zeros()
+        if isinstance(other, sptensor):
+            other = other._drop_explicit_zeros()
         # Case 1: Argument is a scalar or tensor
         if isinstance(other, ttb.tensor) and self.shape != other.shape:
             assert False, "Logical Or requires tensors of the same size"
@@ -1241,6 +1258,10 @@ class sptensor:
         [[0. 1.]
          [1. 0.]]
         """
+        # Explicitly stored zeros denote zeros: work on the entries that are nonzero
+        self = self._drop_explicit_zeros()
+        if isinstance(other, sptensor):
+            other = other._drop_explicit_zeros()
         # Case 1: Argument is a scalar or dense tensor
         if isinstance(other, ttb.tensor) and self.shape != other.shape:
             assert False, "Logical XOR requires tensors of the same size"
@@ -2706,6 +2727,10 @@ class sptensor:
         sparse tensor of shape (2, 2) with 1 nonzeros and order F
         [1, 1] = 1.0
         """
+        # Explicitly stored zeros denote zeros: work on the entries that are nonzero
+        self = self._drop_explicit_zeros()
+        if isinstance(other, sptensor):
+            other = other._drop_explicit_zeros()
         # Case 1: other is a scalar
         if isinstance(other, (float, int)):
             if other == 0:
@@ -2809,6 +2834,10 @@ class sptensor:
         [0, 1] = 1.0
         [1, 0] = 1.0
         """
+        # Explicitly stored zeros denote zeros: work on the entries that are nonzero
+        self = self._drop_explicit_zeros()
+        if isinstance(other, sptensor):
+            other = other._drop_explicit_zeros()
         # Case 1: One argument is a scalar
         if isinstance(other, (float, int)):
             if other == 0:
@@ -3126,6 +3155,10 @@ class sptensor:
         include_zero:
             Whether or not to treat matching zeros as true.
         """
+        # Explicitly stored zeros denote zeros: work on the entries that are nonzero
+        self = self._drop_explicit_zeros()
+        if isinstance(other, sptensor):
+            other = other._drop_explicit_zeros()
         if operator not in (ge, gt, le, lt):
             raise ValueError(
                 "Internal comparison operator called for unsupported operator"
@@ -3373,6 +3406,10 @@ class sptensor:
         sparse tensor of shape (2, 2) with 1 nonzeros and order F
         [1, 1] = 0.66666...
         """
+        # Explicitly stored zeros denote zeros: pair the entries that are nonzero
+        if isinstance(other, sptensor):
+            self = self._drop_explicit_zeros()
+            other = other._drop_explicit_zeros()
         # Divide by a scalar -> result is sparse
         if isinstance(other, (float, int)):
             # Inline mrdivide
